@@ -39,10 +39,15 @@ A history is a JSON-serialisable plan (list of ops) + the database it runs in, s
   ["evalsha", script-hex, [arg-hex…]]         SCRIPT LOAD + EVALSHA sha 0 args…
   ["select", n]                               SELECT n on the observed connection
   ["lua", "eval"|"evalsha", script-hex, numkeys, [arg-hex…], "direct"|"exec"]   a script as text or by hash (write-then-fail shapes included)
-  ["restart", save?, "kill9"|"term"]          stop the live server here and start a new one on the same directory (SAVE first or not)
+  ["short", [arg-hex…], key-hex, ttl-ms, path] / ["elapse", "lazy"|"sweeper"] / ["touch", key-hex, [arg-hex…], path]
+                                              TIME PASSES: a key gets a short time to live, the deadline passes, the sweeper or the first
+                                              command that looks at the key removes it
+  ["xclaim", key-hex, min-idle-ms, justid?, pause-ms]   XREADGROUP to worker-A, a pause, XCLAIM by worker-B with a min-idle-time
+  ["restart", save?, "kill9"|"term"|"torn"]   stop the live server here and start a new one on the same directory (SAVE first or not)
   ["hangup", key-hex, "L"|"R", [push arg-hex…], sleep-ms, gap-ms]   a blocked client hangs up while another connection pushes to its key
 """
 import hashlib
+import threading
 
 from common import *
 from server import Server, Client, Closed, ProtocolError
@@ -59,10 +64,12 @@ MUTATING = {"SET", "MSET", "GETSET", "SETNX", "SETEX", "PSETEX", "APPEND", "SETR
             "DEL", "RENAME", "RENAMENX", "FLUSHDB", "FLUSHALL", "EXPIRE", "PEXPIRE", "PERSIST",
             "LPUSH", "RPUSH", "LPOP", "RPOP", "LSET", "LTRIM", "LREM", "SADD", "SREM", "SPOP", "HSET", "HMSET", "HDEL", "HINCRBY",
             "ZADD", "XADD", "ZREM", "ZINCRBY", "ZPOPMIN", "ZPOPMAX", "XTRIM", "XDEL", "XGROUP", "XREADGROUP", "XACK", "XCLAIM"}
-CAUSES = ["names", "blpop", "select", "random", "random-script", "wake", "evalsha"]
+CAUSES = ["names", "blpop", "select", "random", "random-script", "wake", "evalsha", "expiry", "xclaim"]
 CAUSE_MATCH = {"names": "unlogged-name", "blpop": "blocking-pop-immediate-unlogged", "select": "select-never-logged",
                "random": "random-outcome-logged-verbatim", "random-script": "random-outcome-in-script-logged-verbatim",
-               "wake": "wake-pop-unlogged", "evalsha": "evalsha-logged-without-script"}
+               "wake": "wake-pop-unlogged", "evalsha": "evalsha-logged-without-script",
+               "expiry": "expiry-not-logged", "xclaim": "xclaim-logged-verbatim", "torn": "torn-tail-not-truncated",
+               "script-timeout": "script-cut-by-time-limit-logged-verbatim"}
 
 
 def findings():
@@ -192,8 +199,14 @@ def dump_db(c, db):
             for g in (gs[1] if gs[0] == "a" else []):
                 flat = g[1]
                 d = {flat[i][1]: flat[i + 1] for i in range(0, len(flat) - 1, 2)}
-                groups.append("%s/c%s/p%s/%s" % (hx(d.get(b"name", ("b", b"?"))[1]), d.get(b"consumers", ("i", -1))[1],
-                                                 d.get(b"pending", ("i", -1))[1], d.get(b"last-delivered-id", ("b", b"?"))[1].decode()))
+                gname = d.get(b"name", ("b", b"?"))[1]
+                pend = c.cmd("XPENDING", k, gname, "-", "+", "1000")
+                pel = []
+                for it in (pend[1] if pend[0] == "a" else []):
+                    if it[0] == "a" and len(it[1]) >= 4:
+                        pel.append("%s>%s*%s" % (it[1][0][1].decode(), hx(it[1][1][1]), it[1][3][1]))
+                groups.append("%s/c%s/p%s/%s/%s" % (hx(gname), d.get(b"consumers", ("i", -1))[1],
+                                                    d.get(b"pending", ("i", -1))[1], d.get(b"last-delivered-id", ("b", b"?"))[1].decode(), ",".join(pel) or "-"))
             v = "stream %s groups %s" % ("|".join(items) if items else ".", "|".join(sorted(groups)) if groups else ".")
         else:
             v = "type-" + t
@@ -316,7 +329,47 @@ def utf8_ok(args):
 UNCOVERED_NAMES = {"GETSET", "HMSET", "PEXPIRE", "SPOP", "XREADGROUP"}
 
 
-def gen_plan(r, profile, ks_only, n_ops, covered_only=False):
+SHORT_TTL_MS = 150
+
+
+def timed_round(r):
+    """keys of several types get a short time to live (directly, in EXEC, from a script), the deadlines pass, and then either the
+    sweeper removes the keys or the first command that looks at each does (reads and writes, through the three paths)"""
+    S = lambda *a: [hx(x) for x in a]
+    ttl = b"%d" % SHORT_TTL_MS
+    ops, keys = [], []
+    cand = [b"t1", b"t2", b"tl", b"ts", b"th"]
+    r.shuffle(cand)
+    for key in cand[:r.range(1, 3)]:
+        path = r.choice(["direct", "direct", "exec", "script"])
+        if key in (b"t1", b"t2"):
+            raw = r.choice([[b"SET", key, b"10", b"PX", ttl], [b"PSETEX", key, ttl, b"10"], [b"SET", key, b"owner-A", b"PX", ttl, b"NX"]])
+            ops.append(["short", S(*raw), hx(key), SHORT_TTL_MS, path])
+        else:
+            make = {b"tl": [b"RPUSH", key, b"old"], b"ts": [b"SADD", key, b"a", b"b"], b"th": [b"HSET", key, b"f", b"1"]}[key]
+            ops.append(["direct", S(*make)])
+            ops.append(["short", S(b"PEXPIRE", key, ttl), hx(key), SHORT_TTL_MS, path])
+        keys.append(key)
+    mode = "sweeper" if r.chance(1, 6) else "lazy"
+    ops.append(["elapse", mode])
+    if mode == "lazy":
+        r.shuffle(keys)
+        for key in keys:
+            if key in (b"t1", b"t2"):
+                raw = r.choice([[b"INCR", key], [b"APPEND", key, b"x"], [b"SETNX", key, b"owner-B"], [b"GET", key], [b"EXISTS", key], [b"SET", key, b"v", b"NX"],
+                                [b"GETSET", key, b"z"], [b"STRLEN", key], [b"PERSIST", key], [b"PEXPIRE", key, b"100000"], [b"TYPE", key], [b"DEL", key],
+                                [b"INCRBY", key, b"5"], [b"SETRANGE", key, b"2", b"zz"], [b"RENAMENX", key, b"k1"]])
+            elif key == b"tl":
+                raw = r.choice([[b"RPUSH", key, b"new"], [b"LPUSH", key, b"new"], [b"LPOP", key], [b"LLEN", key], [b"EXISTS", key], [b"LRANGE", key, b"0", b"-1"]])
+            elif key == b"ts":
+                raw = r.choice([[b"SADD", key, b"z"], [b"SPOP", key], [b"SCARD", key], [b"SREM", key, b"a"], [b"SMEMBERS", key]])
+            else:
+                raw = r.choice([[b"HSET", key, b"g", b"2"], [b"HINCRBY", key, b"f", b"5"], [b"HGET", key, b"f"], [b"HDEL", key, b"f"], [b"HLEN", key]])
+            ops.append(["touch", hx(key), S(*raw), r.choice(["direct", "direct", "exec", "script"])])
+    return ops
+
+
+def gen_plan(r, profile, ks_only, n_ops, covered_only=False, timed=False):
     """`covered_only`: only commands and paths the current log represents faithfully (db 0, no unlogged names, no random
     outcomes, no blocking, no EVALSHA) — the histories on which the theorem predicts replay = live"""
     vocab = KS_VOCAB if ks_only else FULL_VOCAB
@@ -389,6 +442,8 @@ def gen_plan(r, profile, ks_only, n_ops, covered_only=False):
             else:
                 script, nk, args = b"return redis.call('SET', KEYS[1], ARGV[1])", 1, [r.choice([b"k1", b"k2"]), r.choice([b"v1", b"v2"])]
             plan.append(["lua", r.choice(["eval", "evalsha", "evalsha"]), hx(script), nk, [hx(a) for a in args], r.choice(["direct", "direct", "exec"])])
+        if not ks_only and not covered_only and r.chance(1, 40):
+            plan.append(["xclaim", hx(r.choice([b"xc", b"xc2"])), r.choice([0, 60, 60, 100000]), r.chance(1, 3), r.choice([120, 150])])
         if profile in ("mixed", "blocking") and not covered_only and r.chance(1, 30):
             key = r.choice([b"q", b"q2", b"hq"])
             push = [r.choice([b"RPUSH", b"LPUSH"]), key] + [r.choice([b"a", b"b", b"c"]) for _ in range(r.range(1, 2))]
@@ -428,9 +483,15 @@ def gen_plan(r, profile, ks_only, n_ops, covered_only=False):
                 plan.append(["direct", [hx(a) for a in [b"SET", b"k1", b"other"]]])
                 plan.append(["select", d1])
                 plan.append(["bpop", hx(key), r.choice(["L", "R"]), [hx(a) for a in [b"RPUSH", key, b"z"]], "direct"])
-    if r.chance(1, 5):
-        # a restart somewhere in the history: the file is inherited by the new run
-        plan.insert(r.range(min(4, len(plan)), len(plan)), ["restart", r.chance(2, 3), r.choice(["kill9", "term"])])
+    if timed:
+        # TIME PASSES: rounds of short-lived keys spread over the history
+        for _ in range(r.range(1, 2)):
+            at = r.range(min(4, len(plan)), len(plan))
+            plan[at:at] = timed_round(r)
+    elif r.chance(1, 5):
+        # a restart somewhere in the history: the file is inherited by the new run ("torn": the crash cut the last entry short)
+        how = r.choice(["kill9", "term", "torn"])
+        plan.insert(r.range(min(4, len(plan)), len(plan)), ["restart", r.chance(2, 3) and how != "torn", how])
     return plan
 
 
@@ -458,6 +519,8 @@ class Event:
     def json(self):
         if self.kind == "restart":
             return {"restart": {"dataset_back": self.dataset_back, "how": self.how}}
+        if self.kind == "expire":
+            return {"expire": [self.db, hx(self.key)]}
         if self.kind == "wake":
             return {"wake": [self.db, "L" if self.left else "R", hx(self.key), hx(self.value), "immediate" if self.immediate else "served"]}
         return {"cmd": [hx(a) for a in self.raw], "via_exec": self.via_exec, "reply": repr(self.reply)[:200]}
@@ -472,6 +535,27 @@ def popped_members(reply):
     if reply[0] == "a":
         return [x[1] for x in reply[1] if x[0] == "b"]
     return []
+
+
+def xclaim_effect(raw, reply):
+    """`XCLAIM key group consumer 0 <ids claimed> [options]`, or `XGROUP CREATECONSUMER key group consumer` when nothing was
+    claimed (the consumer is created all the same); None when the command was refused"""
+    if reply is None or reply[0] != "a" or len(raw) < 6:
+        return None
+    ids = []
+    for item in reply[1]:
+        if item[0] == "b":
+            ids.append(item[1])
+        elif item[0] == "a" and item[1] and item[1][0][0] == "b":
+            ids.append(item[1][0][1])
+    if not ids:
+        return [b"XGROUP", b"CREATECONSUMER", raw[1], raw[2], raw[3]]
+    opt = len(raw)
+    for i in range(5, len(raw)):
+        if raw[i].upper() in (b"IDLE", b"TIME", b"RETRYCOUNT", b"FORCE", b"JUSTID", b"LASTID"):
+            opt = i
+            break
+    return raw[:4] + [b"0"] + ids + raw[opt:]
 
 
 def spec_log(events, write_table, repairs, evalsha_db0=False):
@@ -492,6 +576,13 @@ def spec_log(events, write_table, repairs, evalsha_db0=False):
             # new connection (database 0); the engine inherits a non-empty file and does not know where its reader stands:
             # the next entry is preceded by a SELECT whatever its database
             conn_db, file_db = 0, None
+            if getattr(e, "torn", False) and out:
+                out.pop()          # the crash tore the last entry; the restart cut it off
+            continue
+        if e.kind == "expire":
+            # the server removed the key because its time to live had elapsed: a DEL, ahead of whatever looked at the key
+            if "expiry" in repairs:
+                emit([b"DEL", e.key], e.db)
             continue
         if e.kind == "wake":
             # the pop made for a blocking client: at once (cause "blpop") or when the blocked client is served (cause "wake")
@@ -514,6 +605,12 @@ def spec_log(events, write_table, repairs, evalsha_db0=False):
         if name == "EVALSHA" and "evalsha" in repairs and getattr(e, "script", None) is not None:
             # (on a tree where EVALSHA ignores the selected database — C18's finding — the script ran in db 0)
             emit([b"EVAL", e.script] + e.raw[2:], 0 if evalsha_db0 else conn_db)
+            continue
+        if name == "XCLAIM" and logged and "xclaim" in repairs:
+            # whether an id is claimed depends on how long it has been idle NOW: logged by its effect
+            entry = xclaim_effect(e.raw, e.reply)
+            if entry is not None:
+                emit(entry, conn_db)
             continue
         in_script = inner is not e.raw
         if (eff == "SPOP" or (eff == "XADD" and len(inner) >= 3 and inner[2] == b"*")) and \
@@ -553,6 +650,10 @@ class Runner:
             self.base.add("random")
         if facts.get("evalshaAsEval"):
             self.base.add("evalsha")
+        if facts.get("expiryLogged"):
+            self.base.add("expiry")
+        if facts.get("xclaimByEffect"):
+            self.base.add("xclaim")
         self.causes = [c for c in CAUSES if c not in self.base]
         self.model = lean_driver("aof")
         self.live = None
@@ -592,8 +693,8 @@ class Runner:
 
     def configure_model(self):
         names = "|".join(sorted(self.table)) if self.table else "."
-        if self.model.ask("cfg %s %d %d %d" % (names, 1 if self.facts.get("selectTracked") else 0, 1 if self.facts.get("wakeLogs") else 0,
-                                               1 if self.facts.get("randomByEffect") else 0)) != "ok":
+        if self.model.ask("cfg %s %d %d %d %d" % (names, 1 if self.facts.get("selectTracked") else 0, 1 if self.facts.get("wakeLogs") else 0,
+                                                  1 if self.facts.get("randomByEffect") else 0, 1 if self.facts.get("expiryLogged") else 0)) != "ok":
             raise InternalError("drv_aof refused cfg")
 
     def now(self):
@@ -607,6 +708,7 @@ class Runner:
             self.close_live()
         self.n_live += 1
         self.policy = policy
+        self.poisoned = False
         if policy is None:
             self.live = Server("c11-live%d" % self.n_live, appendonly=True)
         else:
@@ -656,7 +758,11 @@ class Runner:
                 raise InternalError("drv_aof restart")
             e.model_entries, e.model_cur, e.covered, e.in_model, e.entry_db = 0, 0, True, True, 0
             return e
-        if e.kind == "wake":
+        if e.kind == "expire":
+            a = self.ask("ev expire %d %d %s" % (e.db, now, hx(e.key)))
+            if a == "not-expired":
+                raise InternalError("the harness took %r (db %d) for expired; the model's key is alive or absent" % (e.key, e.db))
+        elif e.kind == "wake":
             a = self.ask("ev wake %d %d %s %s" % (e.db, now, "L" if e.left else "R", hx(e.key)))
         else:
             obs, raw, inner = "_", e.raw, e.inner()
@@ -667,13 +773,47 @@ class Runner:
             if e.name() == "EVALSHA" and self.facts.get("evalshaAsEval") and getattr(e, "script", None) is not None \
                     and not (e.reply is not None and e.reply[0] == "e" and e.reply[1].startswith(b"NOSCRIPT")):
                 raw = [b"EVAL", e.script] + e.raw[2:]      # what handle_evalsha_command executes and appends
+            if e.name() == "XCLAIM" and self.facts.get("xclaimByEffect") and "XCLAIM" in self.table:
+                # logged by its effect (streams are outside the Lean model: the model is shown the entry the server writes)
+                raw = xclaim_effect(e.raw, e.reply) or [b"XINFO", b"refused-xclaim"]
             a = self.ask("ev cmd %d %d %s %s" % (1 if e.via_exec else 0, now, obs, " ".join(hx(x) for x in raw)))
         n, cur, cov, inm = a.split(" # ")
         e.model_entries, e.model_cur, e.covered, e.in_model = int(n), int(cur), cov == "1", inm == "1"
-        e.entry_db = e.db if e.kind == "wake" else getattr(self, "db", 0)
+        e.entry_db = e.db if e.kind in ("wake", "expire") else getattr(self, "db", 0)
         return e
 
+    def short_guard(self, raws):
+        """time passes: a command that names a key with a short time to live is never sent while that deadline is about to pass"""
+        self.sent_at = None
+        if not self.short:
+            return
+        now = time.monotonic()
+        wait = 0.0
+        for raw in raws:
+            for a in raw:
+                d = self.short.get((self.db, a))
+                if d is not None and d[0] - 0.06 < now < d[1] + 0.03:
+                    wait = max(wait, d[1] + 0.03 - now)
+        if wait > 0:
+            time.sleep(wait)
+        self.sent_at = time.monotonic()
+
+    def note_lazy_expiry(self, raw):
+        """a command that names a key whose short deadline has passed is the first to look at it: the server removes the key, then
+        runs the command (any command: the plan's `touch` ops are just the deliberate ones)"""
+        if not self.short:
+            return
+        now = getattr(self, "sent_at", None) or time.monotonic()       # when the command was sent
+        for a in raw:
+            d = self.short.get((self.db, a))
+            if d is not None and now > d[1]:
+                del self.short[(self.db, a)]
+                e = Event("expire", db=self.db, key=a, raw=[], reply=None, via_exec=False)
+                self.events.append(self.feed(e))
+                self.rep.count("expiry.removed-by.lazy.unplanned")
+
     def event(self, raw, reply, via_exec=False, **kw):
+        self.note_lazy_expiry(raw)
         if raw and raw[0].upper() == b"EVALSHA" and len(raw) > 1 and "script" not in kw and raw[1].lower() in self.scripts:
             kw["script"] = self.scripts[raw[1].lower()]
         e = Event("cmd", raw=list(raw), reply=reply, via_exec=via_exec, **kw)
@@ -682,6 +822,7 @@ class Runner:
         return e
 
     def direct(self, raw):
+        self.short_guard([raw])
         r = self.c.cmd(*raw)
         e = self.event(raw, r)
         if self.check_every_command:
@@ -691,9 +832,15 @@ class Runner:
     # ---- the ops of a plan
     def run_plan(self, plan, db, check_every_command=False):
         """fresh dataset, run the plan; returns the events (self.events) and the file offset of the history"""
+        if getattr(self, "poisoned", False):
+            self.new_live(self.policy)
         self.events = []
         self.frame_failures = []
         self.lag_failures = []
+        self.short = {}
+        # histories in which time passes keep the sweeper paused, so that who removes an expired key is chosen by the plan
+        self.sweeper_paused = any(op[0] in ("short", "elapse", "touch") for op in plan)
+        self.c.cmd("VERIF", "SWEEPER", "PAUSE" if self.sweeper_paused else "RESUME")
         self.check_every_command = False
         self.blocked_timeouts = 0
         if self.c.cmd("SELECT", "0") != ("s", b"OK") or self.c.cmd("FLUSHALL") != ("s", b"OK"):
@@ -734,8 +881,28 @@ class Runner:
                 self.do_restart(op[1], op[2])
             elif kind == "hangup":
                 self.do_hangup(unhx(op[1]), op[2] == "L", [unhx(a) for a in op[3]], op[4], op[5])
+            elif kind == "short":
+                self.do_short([unhx(a) for a in op[1]], unhx(op[2]), op[3], op[4])
+            elif kind == "elapse":
+                self.do_elapse(op[1])
+            elif kind == "touch":
+                self.do_touch(unhx(op[1]), [unhx(a) for a in op[2]], op[3])
+            elif kind == "xclaim":
+                self.do_xclaim(unhx(op[1]), op[2], op[3], op[4])
             else:
                 raise InternalError("unknown op %r" % (op,))
+        if self.short:
+            # every short deadline is waited out and every dead key removed before the datasets are compared
+            self.do_elapse("lazy")
+            c0 = self.db
+            for (db, key) in sorted(self.short):
+                if db != self.db:
+                    self.do_select(db)
+                self.do_touch(key, [b"EXISTS", key], "direct")
+            if self.db != c0:
+                self.do_select(c0)
+        if self.sweeper_paused:
+            self.c.cmd("VERIF", "SWEEPER", "RESUME")
         self.check_every_command = False
         return self.events
 
@@ -748,6 +915,7 @@ class Runner:
         cmds = [c for c in cmds if c and c[0].upper() not in (b"BLPOP", b"BRPOP", b"MULTI", b"EXEC", b"DISCARD", b"WATCH", b"UNWATCH")]
         if not cmds:
             return
+        self.short_guard(cmds)
         if self.c.cmd("MULTI") != ("s", b"OK"):
             raise InternalError("MULTI refused")
         queued = []
@@ -783,6 +951,105 @@ class Runner:
         self.rep.count("lua.%s.%s.%s" % (mode, via, "error-reply" if r is not None and r[0] == "e" else "ok"))
         self.rep.nontrivial(("lua", mode, via, r is not None and r[0] == "e"))
 
+    # ---- time passes: keys with a short time to live (names outside the generators' universe), their expiry, who notices
+    def run_via(self, raw, path):
+        if path == "exec":
+            self.do_exec([raw])
+        elif path == "script":
+            self.direct([b"EVAL", WRAPPER, b"0"] + raw)
+        else:
+            self.direct(raw)
+
+    def do_short(self, raw, key, ttl_ms, path):
+        """a command that gives `key` a time to live of `ttl_ms` (SET … PX, PSETEX, PEXPIRE on a key made just before)"""
+        self.settle_if_close()
+        t0 = time.monotonic()
+        self.run_via(raw, path)
+        r = self.events[-1].reply
+        if r in (("s", b"OK"), ("b", b"OK"), ("i", 1)):
+            self.short[(self.db, key)] = (t0 + ttl_ms / 1000.0, time.monotonic() + ttl_ms / 1000.0)
+        self.rep.count("expiry.ttl-set.%s" % path)
+
+    def settle_if_close(self):
+        """never run a command while a short deadline is about to pass: wait it out and have the dead keys removed first"""
+        if self.short and time.monotonic() > min(lo for lo, hi in self.short.values()) - 0.06:
+            self.do_elapse("lazy")
+            for (db, key) in sorted(self.short):
+                if db == self.db:
+                    self.do_touch(key, [b"EXISTS", key], "direct")
+
+    def do_elapse(self, mode):
+        """wait until every short deadline has passed.  "lazy": the sweeper stays paused, the keys are removed when a command
+        looks at them (`touch` ops follow); "sweeper": the sweeper is let run until it has made a full pass, which removes them"""
+        if not self.short:
+            return
+        wait = max(hi for lo, hi in self.short.values()) + 0.06 - time.monotonic()
+        if wait > 0:
+            time.sleep(wait)
+        self.rep.count("expiry.elapse.%s" % mode)
+        if mode != "sweeper":
+            return
+        before = len(self.aof())
+        p0 = self.c.cmd("VERIF", "SWEEPER", "PASSES")[1]
+        self.c.cmd("VERIF", "SWEEPER", "RESUME")
+        t_end = time.monotonic() + 10
+        while self.c.cmd("VERIF", "SWEEPER", "PASSES")[1] < p0 + 2 and time.monotonic() < t_end:
+            time.sleep(0.05)
+        self.c.cmd("VERIF", "SWEEPER", "PAUSE")
+        time.sleep(0.02)
+        # the order in which the sweeper met the keys is the order of its DEL entries, if it writes any
+        seen, _, _ = read_aof(self.aof()[before:])
+        order, cur = [], None
+        for cmd in seen:
+            if cmd[0] == b"SELECT":
+                cur = int(cmd[1])
+            elif cmd[0] == b"DEL" and len(cmd) == 2:
+                cands = [k for k in self.short if k[1] == cmd[1] and (cur is None or k[0] == cur) and k not in order]
+                if cands:
+                    order.append(cands[0])
+        for k in sorted(self.short):
+            if k not in order:
+                order.append(k)
+        for (db, key) in order:
+            e = Event("expire", db=db, key=key, raw=[], reply=None, via_exec=False)
+            self.events.append(self.feed(e))
+            self.rep.count("expiry.removed-by.sweeper")
+        self.short = {}
+        if self.check_every_command:
+            self.check_now("after the sweeper removed the expired keys")
+
+    def do_touch(self, key, raw, path):
+        """the first command that looks at `key` after its deadline: the server removes the key, then runs the command"""
+        if (self.db, key) not in self.short:
+            self.run_via(raw, path)
+            return
+        if time.monotonic() < self.short[(self.db, key)][1] + 0.03:
+            self.do_elapse("lazy")
+        if key not in raw and key not in (raw[3:] if len(raw) > 3 else []):
+            # (the command does not name the key: remove it from the books here)
+            del self.short[(self.db, key)]
+            e = Event("expire", db=self.db, key=key, raw=[], reply=None, via_exec=False)
+            self.events.append(self.feed(e))
+        self.run_via(raw, path)          # event() notes the removal ahead of the command
+        self.rep.count("expiry.removed-by.lazy.%s.%s" % (raw[0].decode().upper(), path))
+        self.rep.nontrivial(("expiry-lazy", raw[0].upper(), path))
+
+    def do_xclaim(self, key, min_idle, justid, pause_ms):
+        """deliver an entry to consumer A, let it sit idle, have consumer B claim it with a min-idle-time: the outcome depends on
+        the clock"""
+        self.xid = getattr(self, "xid", 100) + 1
+        i1, i2 = b"%d-1" % self.xid, b"%d-2" % self.xid
+        self.direct([b"XADD", key, i1, b"job", b"a"])
+        self.direct([b"XADD", key, i2, b"job", b"b"])
+        self.direct([b"XGROUP", b"CREATE", key, b"g", b"0"])
+        self.direct([b"XREADGROUP", b"GROUP", b"g", b"worker-A", b"COUNT", b"10", b"STREAMS", key, b">"])
+        time.sleep(pause_ms / 1000.0)
+        raw = [b"XCLAIM", key, b"g", b"worker-B", b"%d" % min_idle, i1, i2] + ([b"JUSTID"] if justid else [])
+        e = self.direct(raw)
+        n = len(e.reply[1]) if e.reply[0] == "a" else -1
+        self.rep.count("xclaim.min-idle-%d.claimed-%d" % (min_idle, n))
+        self.rep.nontrivial(("xclaim", min_idle, justid, n))
+
     def do_restart(self, save, how):
         """stop the live server (SIGTERM or kill -9) at this point of the history and start a new one on the same directory, same
         AOF settings.  Start-up does not replay the file (AofEngine::load executes nothing): the restarted server holds what it
@@ -797,8 +1064,23 @@ class Runner:
             before = self.dump_live(dbs)
         self.c.close()
         d, policy = self.live.dir, self.policy
-        if how == "kill9":
+        torn = False
+        if how in ("kill9", "torn"):
             self.live.kill9()
+            if how == "torn":
+                # a crash in the middle of the last append: cut the file inside its last frame (if that frame is of this history)
+                data = self.aof()
+                cmds, tail, _ = read_aof(data[self.offset:])
+                if cmds and tail == "clean":
+                    last = len(Client.encode(cmds[-1]))
+                    cut = 1 + (len(data) * 7 + len(cmds)) % (last - 1)
+                    with open(self.aof_path, "r+b") as f:
+                        f.truncate(len(data) - cut)
+                    torn = True
+                    # on a tree that keeps the torn bytes the file of this server is unreadable from here on, for good
+                    self.poisoned = not self.facts.get("tornTailTruncated")
+                    if self.ask("droplast") != "ok":
+                        raise InternalError("drv_aof droplast")
         else:
             self.live.p.terminate()
             try:
@@ -815,9 +1097,14 @@ class Runner:
         self.scripts = {}
         after = self.dump_live(dbs)
         back = before is not None and after == before
-        e = Event("restart", raw=[], reply=None, via_exec=False, dataset_back=back, how=how)
+        self.short = {}
+        try:
+            self.c.cmd("VERIF", "SWEEPER", "PAUSE") if self.sweeper_paused else None
+        except Exception:
+            pass
+        e = Event("restart", raw=[], reply=None, via_exec=False, dataset_back=back, how=how, torn=torn)
         self.events.append(self.feed(e))
-        self.rep.count("restart-in-history.%s.%s" % (how, "dataset-back-from-snapshot" if back else ("snapshot-incomplete" if save else "no-snapshot")))
+        self.rep.count("restart-in-history.%s.%s" % (how if how != "torn" or torn else "kill9", "dataset-back-from-snapshot" if back else ("snapshot-incomplete" if save else "no-snapshot")))
         self.rep.nontrivial(("restart", how, save, back))
         if not back:
             self.direct([b"FLUSHALL"])
@@ -1012,7 +1299,7 @@ class Runner:
 def dbs_of(events, db):
     s = {0, db}
     for e in events:
-        if e.kind == "wake":
+        if e.kind in ("wake", "expire"):
             s.add(e.db)
         elif e.name() == "SELECT" and len(e.raw) == 2 and e.raw[1].isdigit() and int(e.raw[1]) < 16:
             s.add(int(e.raw[1]))
@@ -1029,17 +1316,23 @@ def judge(R, plan, db, ks_only, fs, tag, check_every_command=False, policy="keep
     res = {"oracle": [], "disagree": [], "active": []}
     hist = {"db": db, "plan": plan, "ks_only": ks_only, "policy": R.policy, "check_every_command": check_every_command}
     for lf in R.lag_failures:
-        res["oracle"].append({"kind": "lag", "cause": None, "detail": lf, "history": hist,
+        res["oracle"].append({"kind": "lag", "cause": "torn" if any(e.kind == "restart" and getattr(e, "torn", False) for e in events) and not R.facts.get("tornTailTruncated") else None,
+                              "detail": lf, "history": hist,
                               "why": "appendfsync %s: %s, with %d events acknowledged and the server idle, the file holds %d of the %d entries of the history so far"
                                      " (%d of %d bytes%s): replaying it now would not give the live dataset"
                                      % (R.policy or "default (everysec)", lf["when"], lf["events_acknowledged"], lf["entries_in_file"], lf["entries_expected"],
                                         lf["bytes_in_file"], lf["bytes_expected"], ", ending in a torn frame" if lf["tail"] == "torn" else "")})
     # (a) whole frames
     data, all_cmds, tail = R.check_whole_frames("after the history")
+    torn_kept = any(e.kind == "restart" and getattr(e, "torn", False) for e in events) and not R.facts.get("tornTailTruncated")
     for ff in R.frame_failures:
-        res["oracle"].append({"kind": "frames", "cause": None, "why": "appendfsync %s: the file is not a sequence of complete command frames %s (%s)"
+        res["oracle"].append({"kind": "frames", "cause": "torn" if torn_kept else None, "why": "appendfsync %s: the file is not a sequence of complete command frames %s (%s)"
                               % (R.policy or "default (everysec)", ff["when"], ff["tail"]), "detail": ff, "history": hist})
     if tail != "clean":
+        if torn_kept and not R.frame_failures:
+            res["oracle"].append({"kind": "frames", "cause": "torn", "history": hist,
+                                  "why": "after a crash in the middle of an append and a restart, the next entry was appended inside the unfinished frame: "
+                                         "the file is not a sequence of complete command frames any more"})
         return res
     if not R.lag_failures and R.table:
         # the same at the end of the history (every history, every policy)
@@ -1089,6 +1382,13 @@ def judge(R, plan, db, ks_only, fs, tag, check_every_command=False, policy="keep
                 if got != want[:-len(" # clean")]:
                     res["disagree"].append({"kind": "chunked-parser", "why": "runChunks on the real file bytes does not yield the file's commands",
                                             "model": got[:400], "harness": want[:400], "history": hist})
+    if torn_kept and res["disagree"]:
+        # the torn bytes and the first entry of the new run can also fuse into ONE well-formed but different command
+        # (`*3 $7 ZPOPM` + `*2 $6 SELECT $1 0` reads as ['ZPOPM*2', 'SELECT', '0']): whole frames, but not the log
+        res["oracle"].append({"kind": "frames", "cause": "torn", "history": hist, "detail": res["disagree"][0].get("file", [])[:12],
+                              "why": "after a crash in the middle of an append and a restart, the next entry fused with the unfinished frame into another command: "
+                                     "the file is not the sequence of the commands that were appended"})
+        res["disagree"] = []
     # (c) replay into a fresh server
     dbs = dbs_of(events, db)
     live = R.dump_live(dbs)
@@ -1110,7 +1410,12 @@ def judge(R, plan, db, ks_only, fs, tag, check_every_command=False, policy="keep
         rfull = R.replay_into_fresh(full, dbs)
         det = {"kind": "replay", "history": hist, "events": [e.json() for e in events][:120], "file": [[hx(a) for a in c] for c in file_cmds][:120],
                "live": live, "replayed": rp, "causes_present": present}
-        if rfull != live or not present:
+        if torn_kept:
+            # the file itself is damaged (the unfinished frame swallowed the entries that followed, e.g. the SELECT of the new run)
+            det.update({"cause": "torn", "why": "after a crash in the middle of an append and a restart the next entries fused with the unfinished frame: "
+                                                "the file does not replay to the live dataset"})
+            res["oracle"].append(det)
+        elif rfull != live or not present:
             det.update({"cause": None, "repaired": rfull, "repaired_log": [[hx(a) for a in c] for c in full][:120],
                         "why": ("replaying the file does not reproduce the live dataset, and neither does the log repaired for every known cause (%s)" % ",".join(present))
                         if present else "replaying the file does not reproduce the live dataset although the history contains none of the known causes"})
@@ -1164,6 +1469,8 @@ def judge(R, plan, db, ks_only, fs, tag, check_every_command=False, policy="keep
             continue
         if e.kind == "wake":
             kind = "blocking-pop-at-once" if e.immediate else "blocking-pop-served"
+        elif e.kind == "expire":
+            kind = "expiry-del"
         elif e.name() == "EVALSHA":
             kind = "evalsha-as-eval" if R.facts.get("evalshaAsEval") else "evalsha"
         elif e.name() == "EVAL":
@@ -1184,12 +1491,12 @@ def judge(R, plan, db, ks_only, fs, tag, check_every_command=False, policy="keep
             continue
         if after_restart and e.model_entries > 0:
             # the first entry of the new run: the engine does not know where a reader of the inherited file stands
-            prev = [x for x in events[:events.index(e)] if x.kind != "restart" and x.model_entries > 0]
+            prev = [x for x in events[:events.index(e)] if x.kind not in ("restart",) and x.model_entries > 0]
             rep.count("entry.first-after-restart.db-%s.previous-run-ended-in-db-%s" % ("0" if e.entry_db == 0 else "N", "none" if not prev else ("0" if prev[-1].entry_db == 0 else "N")))
             rep.nontrivial(("first-after-restart", e.entry_db == 0, prev[-1].entry_db == 0 if prev else None, e.kind))
             after_restart = False
     for e in events:
-        if e.kind == "restart":
+        if e.kind in ("restart", "expire"):
             continue
         if e.kind == "wake":
             rep.count("path.%s" % ("blpop-immediate" if e.immediate else "wake"))
@@ -1219,7 +1526,52 @@ def witness_plans():
         ("random-script", 0, [["direct", S("SADD", "s", "a", "b", "c", "d", "e", "f", "g", "h")], ["script", S("SPOP", "s", "4")]]),
         ("wake", 0, [["bpop", hx(b"q"), "L", S("RPUSH", "q", "served"), "direct"]]),
         ("evalsha", 0, [["evalsha", hx(b"return redis.call('SET', ARGV[1], ARGV[2])"), S("k", "v")]]),
+        # d1: SET counter 10 PX 120 / the key expires / INCR counter — live 1 without TTL, replay 11 with TTL
+        ("expiry", 0, [["short", S("SET", "counter", "10", "PX", "120"), hx(b"counter"), 120, "direct"], ["elapse", "lazy"],
+                       ["touch", hx(b"counter"), S("INCR", "counter"), "direct"]]),
+        ("expiry", 0, [["direct", S("RPUSH", "queue", "old")], ["short", S("PEXPIRE", "queue", "120"), hx(b"queue"), 120, "direct"], ["elapse", "sweeper"],
+                       ["direct", S("RPUSH", "queue", "new")]]),
+        # d2: an entry idle for 150 ms is claimed with min-idle-time 60 — on replay it has been idle for microseconds
+        ("xclaim", 0, [["xclaim", hx(b"xc"), 60, False, 150]]),
     ]
+
+
+# ------------------------------------------------------------------ a script cut short by the time limit (runs beside the histories)
+class ScriptTimeoutWitness(threading.Thread):
+    """`EVAL "while true do redis.call('INCR', KEYS[1]) end" 1 n` on a live server of its own: the server stops it after its time limit
+    (5 s); the partial effect stays.  The file is then replayed on an empty server of its own and the two counters compared."""
+
+    def __init__(self):
+        super().__init__(daemon=True)
+        self.result = None
+
+    def run(self):
+        live = rep_srv = None
+        try:
+            live = Server("c11-limit-live", appendonly=True)
+            c = live.client(timeout=60)
+            t0 = time.monotonic()
+            r = c.cmd("EVAL", "while true do redis.call('INCR', KEYS[1]) end", "1", "n", timeout=60)
+            took = time.monotonic() - t0
+            n_live = c.cmd("GET", "n")
+            with open(os.path.join(live.dir, "appendonly.aof"), "rb") as f:
+                cmds, tail, _ = read_aof(f.read())
+            rep_srv = Server("c11-limit-replay")
+            c2 = rep_srv.client(timeout=60)
+            for cmd in cmds:
+                c2.cmd(*cmd, timeout=60)
+            n_rep = c2.cmd("GET", "n")
+            self.result = {"reply": repr(r)[:120], "seconds": round(took, 1), "entries": [[a.decode("latin-1") for a in x] for x in cmds][:4], "tail": tail,
+                           "live": repr(n_live), "replayed": repr(n_rep), "stopped_by_limit": r[0] == "e", "differ": n_live != n_rep}
+        except Exception as e:          # the witness is an extra: its own trouble is recorded, not raised
+            self.result = {"error": "%s: %s" % (type(e).__name__, e)}
+        finally:
+            for srv in (live, rep_srv):
+                if srv is not None:
+                    try:
+                        srv.stop()
+                    except Exception:
+                        pass
 
 
 # ------------------------------------------------------------------ kill -9
@@ -1356,6 +1708,14 @@ def show_plan(plan):
             out.append("%s %s" % (op[0], " ".join(repr(unhx(a).decode("latin-1")) for a in op[1])))
         elif op[0] == "exec":
             out.append("exec [" + " ; ".join(" ".join(repr(unhx(a).decode("latin-1")) for a in c) for c in op[1]) + "]")
+        elif op[0] == "short":
+            out.append("%s %s   (time to live %d ms on %r)" % (op[4], " ".join(repr(unhx(a).decode("latin-1")) for a in op[1]), op[3], unhx(op[2]).decode("latin-1")))
+        elif op[0] == "elapse":
+            out.append("... the short deadlines pass (%s) ..." % ("the sweeper removes the keys" if op[1] == "sweeper" else "sweeper paused: the keys stay until a command looks at them"))
+        elif op[0] == "touch":
+            out.append("%s %s   (first look at %r after its deadline)" % (op[3], " ".join(repr(unhx(a).decode("latin-1")) for a in op[2]), unhx(op[1]).decode("latin-1")))
+        elif op[0] == "xclaim":
+            out.append("XADD x2 / XGROUP CREATE / XREADGROUP worker-A on %r; %d ms later XCLAIM … worker-B %d …%s" % (unhx(op[1]).decode("latin-1"), op[4], op[2], " JUSTID" if op[3] else ""))
         elif op[0] == "lua":
             out.append("%s %r numkeys=%d %s via %s" % (op[1], unhx(op[2]).decode("latin-1"), op[3], " ".join(repr(unhx(a).decode("latin-1")) for a in op[4]), op[5]))
         elif op[0] == "restart":
@@ -1383,7 +1743,10 @@ def main(tier, seed):
                 "equal the model's log so far, under every policy (append_command flushes per append under all three). "
                 "distinct = (effective command, path, reply class, logged?, db != 0) tuples reached")
     rep.assumptions = [
-        "TTLs used are >= 100 s, so no key expires during a history or its replay (the theorems speak about TTL presence, not remaining time)",
+        "TIME PASSES in an eighth of the histories: keys of every type get a 150 ms time to live (direct, EXEC, script), the deadline passes, and the sweeper "
+        "(let run for a pass) or the first command that looks at the key (sweeper paused; reads and writes, three paths) removes it; every short deadline has "
+        "passed and every dead key has been removed before datasets are compared.  All other TTLs are >= 100 s, so nothing expires during a replay "
+        "(deadlines are logged relative; the theorems speak about TTL presence, not remaining time)",
         "command names are ASCII (Rust's to_uppercase maps U+017F/U+0131 to S/I; the model upper-cases ASCII only)",
         "all arguments are bulk strings (a client may send other frame types inside the array; append_command writes them verbatim)",
         "the script path is modelled for the wrapper `return redis.call(unpack(ARGV))` with redis.call = the direct command (C12's property); other scripts and "
@@ -1399,6 +1762,8 @@ def main(tier, seed):
     r = Rng(seed)
     oracle, disagree, confirmed = [], [], {}
     R = Runner(rep, facts)
+    limit_witness = ScriptTimeoutWitness()
+    limit_witness.start()
     try:
         # fixed witnesses of the known causes first (known-finding replays)
         witnessed = set()
@@ -1414,8 +1779,11 @@ def main(tier, seed):
             profile = rr.choice(PROFILES)
             ks_only = rr.chance(1, 2)
             covered_only = rr.chance(1, 3)
+            timed = rr.chance(1, 8)
             db = 0 if covered_only or rr.chance(1, 2) else rr.range(1, 15)
-            plan = gen_plan(rr, profile, ks_only, rr.range(15, 45), covered_only)
+            plan = gen_plan(rr, profile, ks_only, rr.range(8, 20) if timed else rr.range(15, 45), covered_only, timed)
+            if timed:
+                rep.count("history.time-passes")
             # the fsync policy is a dimension of the run: one block of histories per live server, the policies in rotation
             # (the first block keeps the command-line default, the others get a configuration file)
             policy = POLICIES[(h // HIST_PER_LIVE) % len(POLICIES)]
@@ -1436,6 +1804,12 @@ def main(tier, seed):
                 rep.sample({"db": db, "profile": profile, "plan": show_plan(plan)[:20], "replay_equals_live": res.get("same"),
                             "all_events_covered": res.get("covered"), "causes_active": res["active"]})
         oracle += kill_tests(R, r, fs, 6 if tier == "quick" else 40)
+        limit_witness.join(timeout=120)
+        rep.extra["script_time_limit_witness"] = limit_witness.result
+        lw = limit_witness.result or {}
+        if lw.get("stopped_by_limit") and lw.get("differ"):
+            oracle.append({"kind": "script-timeout", "cause": "script-timeout", "detail": lw,
+                           "why": "a script stopped by the time limit after writing is logged by its text: live n = %s, replayed n = %s" % (lw["live"], lw["replayed"])})
         # ---- verdict (DESIGN 2.5)
         new = []
         for o in oracle:
